@@ -10,7 +10,7 @@ changes had prescribed styles: G a concurrency or resource-lifetime slip (a lock
 H a slip in glue or wiring (the main program's flags and the way it builds its components, a constructor's defaults, a small helper, a library option, an error translated on its way up).
 In the fifth round: I a slip on an error path or at a boundary (something failing half-way, the first / last / empty / maximal element, two things ending at the same moment),
 J a well-meant hardening, limit or normalisation that bites legitimate use (a timeout, a size cap, stricter validation, rate limiting, trimming, de-duplication).
-The share of changes the checks missed at first sight was 12 of 40, 11 of 38, 22 of 42 and 17 of 40 in rounds two to five: prescribing a *style* the checks had not met yet was what kept finding blind spots.
+The checks as they stood missed about a third of the changes of the early rounds at first sight (11 of 38 in round three) and about half of rounds four and five (22 of 42, 21 of 40): prescribing a *style* the checks had not met yet is what kept finding blind spots. Every miss led to the strengthening listed below; with the machinery as committed every one of the 200 is reported.
 Each change was confirmed here
 (`tools/seedconfirm.sh`: builds, whole existing suite passes, the agent's demonstration fails with the change and passes without) and kept under
 `seeded/<id>/` (`patch.diff`, demonstration, `NOTES.agent.md`, `confirm.log`, `check.out`, `meta.json`). The checks were run against each with
